@@ -1,6 +1,6 @@
 (** C16 — values survive storage unchanged; no value or declaration makes the value layer panic.
     Model: Model/Value.v (ValueFrom / ValueFor of schema/schema_item.go). *)
-From BV Require Import Model.Value Proofs.ValueProofs.
+From BV Require Import Model.Value Proofs.ValueProofs Model.Store Proofs.StoreProofs Gen.Facts.
 Open Scope Z_scope.
 
 (* No dynamic value under any declared item type (or none) panics — for the code as repaired. *)
@@ -56,6 +56,42 @@ Theorem C16_nested_int_refuted :
     roundtrip TNone (VSlice [VInt z]) <> Some (TArray, exact (VSlice [VInt z])).
 Proof. exists (2 ^ 62 + 1). split; [lia|]. vm_compute. discriminate. Qed.
 Print Assumptions C16_nested_int_refuted.
+
+(* ISOLATION. Variables are kept as a table from names to pointers to stored values (Model/Store.v); snapshots
+   (CloneVariables), merged locators, a caller's own value handed in through a reused option, and the locators of other
+   instances made from that option all share such pointers. With a SetVariable that points the name at another value
+   (the variant the sources show: src_setvariable_replaces, read off pkg/data/impl.go on every run) every holder of a
+   table reads what it read before, whatever is written afterwards, to which locator and how often ... *)
+Open Scope nat_scope.
+Theorem C16_holders_keep_their_values : forall h ts ws o n, wf h o ->
+  read (fst (writes (negb src_setvariable_replaces) (h, ts) ws)) o n = read h o n.
+Proof. exact observers_keep_their_values. Qed.
+Print Assumptions C16_holders_keep_their_values.
+
+(* ... while the write itself takes effect where it was made and nowhere else *)
+Theorem C16_a_write_reads_back : forall h ts i n v t, nth_error ts i = Some t -> wf h t ->
+  exists t', nth_error (snd (write (negb src_setvariable_replaces) (h, ts) (i, n, v))) i = Some t' /\
+    read (fst (write (negb src_setvariable_replaces) (h, ts) (i, n, v))) t' n = Some v /\
+    (forall m, m <> n -> read (fst (write (negb src_setvariable_replaces) (h, ts) (i, n, v))) t' m = read h t m) /\
+    (forall j, j <> i -> nth_error (snd (write (negb src_setvariable_replaces) (h, ts) (i, n, v))) j = nth_error ts j).
+Proof. exact a_write_reads_back. Qed.
+Print Assumptions C16_a_write_reads_back.
+
+(* with a SetVariable that overwrites the stored value of a bound name it is not so: x := 7, snapshot, x := 41 --
+   the snapshot reads 41 *)
+Theorem C16_isolation_refuted_with_writes_in_place :
+  let '(h1, t1) := set_var true [] [] 0 7 in
+  let snapshot := t1 in
+  let '(h2, _) := set_var true h1 t1 0 41 in
+  read h1 snapshot 0 = Some 7 /\ read h2 snapshot 0 = Some 41.
+Proof. exact refuted_in_place. Qed.
+Print Assumptions C16_isolation_refuted_with_writes_in_place.
+
+Example C16_store_nonvacuous :
+  let s := writes false ([], [[]; []]) [(0, 1, 7); (1, 1, 8); (0, 2, 9); (0, 1, 41)] in
+  map (fun t => (read (fst s) t 1, read (fst s) t 2)) (snd s) = [(Some 41, Some 9); (Some 8, None)].
+Proof. vm_compute. reflexivity. Qed.
+Close Scope nat_scope.
 
 Example C16_nonvacuous :
   roundtrip TNone (VMap [(1%N, VSlice [VInt 7; VStr (SLit 3); VPtr (VBool true)]); (2%N, VStruct [(5%N, VFloat (FId 9))])])
